@@ -29,6 +29,7 @@ EXPLANATION = (
     "decided: that B's state is unchanged in every history (behavioural), and correctness of zone classification by "
     "address arithmetic."
 )
+TECHNIQUE = "static: CFG must-pass (verdict before effect) per filter function, zone call-graph check, who-may-call inventories, module layering check"
 ASSUMPTIONS = ["no monkey-patching of interface/node classes", "class-hierarchy analysis over-approximates dispatch"]
 
 SINK_CALLS = ["add_arp_cache_entry", "process_frame", "route_frame", "send_frame"]
